@@ -39,7 +39,7 @@ namespace {
 using namespace osmdata;
 
 struct Cfg {
-    std::string fmt;   // opl, osm, pbf
+    std::string fmt;   // opl, osm, pbf, o5m
     int pool;
     std::string qsize; // "" = default, else value for all three OSMIUM_MAX_*_QUEUE_SIZE
     int mask;          // osm_entity_bits (node 1, way 2, relation 4, changeset 8)
@@ -117,6 +117,7 @@ int main(int argc, char** argv) {
     write_file(g_dir + "/in.opl", to_opl(g_data));
     write_file(g_dir + "/in.osm", to_xml(g_data));
     write_pbf(g_dir + "/in.pbf", g_data, true);
+    write_file(g_dir + "/in.o5m", to_o5m(g_data));
 
     struct Job { Cfg c; vsched::Options o; };
     std::vector<Job> jobs;
@@ -124,7 +125,7 @@ int main(int argc, char** argv) {
         vsched::Options o; o.max_bound = kmax; o.delay_bounded = delay; o.workers = workers; o.unlock_points = false;
         jobs.push_back({c, o});
     };
-    const char* fmts[] = {"opl", "osm", "pbf"};
+    const char* fmts[] = {"opl", "osm", "pbf", "o5m"};
     // (1) covering subset: each option value with each pool size, per format; deeper bounds
     for (auto fmt : fmts) for (int pool : {1, 2}) {
         std::vector<Cfg> cover = {
@@ -133,7 +134,13 @@ int main(int argc, char** argv) {
             {fmt, pool, "", 5, false, false, true, false},
         };
         if (std::string(fmt) == "pbf") cover.push_back({fmt, pool, "2", 7, false, true, false, true});
-        for (auto& c : cover) add(c, T ? 3 : 2, true, 16);
+        // quick: bound 2 where an execution has few decision points (PBF ~120, o5m ~165; OPL ~230 on one configuration); the XML
+        // reader has ~450 decision points per execution (~10^5 schedules per configuration at bound 2): bound <= 1 in quick
+        for (auto& c : cover) {
+            const std::string f = fmt;
+            const int kq = (f == "pbf" || f == "o5m") ? 2 : (f == "opl" && pool == 2 && c.qsize == "2") ? 2 : 1;
+            add(c, T ? 3 : kq, true, 16);
+        }
     }
     // (2) preemption bounding (free switches at blocking points) on one small configuration per format
     for (auto fmt : fmts) add({fmt, 1, "2", 7, false, true, true, false}, T ? 1 : 0, false, 16);
@@ -169,7 +176,7 @@ int main(int argc, char** argv) {
         if (T) for (size_t i = n_deep; i < jobs.size(); ++i) if (jobs[i].o.max_bound >= 1) run_job(jobs[i], 1);
     }
     int rc = m.finish();
-    for (auto f : {"/in.opl", "/in.osm", "/in.pbf"}) unlink((g_dir + f).c_str());
+    for (auto f : {"/in.opl", "/in.osm", "/in.pbf", "/in.o5m"}) unlink((g_dir + f).c_str());
     rmdir(g_dir.c_str());
     return rc;
 }
